@@ -272,12 +272,21 @@ def anchors_font(rng):
                     anchors[n].append((c, q4(rng, 0, 500), q4(rng, -100, 800)))
             if rng.random() < 0.1:
                 anchors[n].append(("caret_1", q4(rng, 0, 300), 0))
+    spacing = None
+    if not indic and classes and rng.random() < 0.3:
+        # a spacing accent: it attaches like a mark (an '_x' anchor that has counterparts) AND takes marks itself; when glyph
+        # classes are declared it is a BASE
+        spacing = "acute"
+        gl.append(("acute", 0xB4))
+        names.append("acute")
+        c0 = classes[0]
+        anchors["acute"] = [("_" + c0, q4(rng, -100, 100), q4(rng, 300, 600)), (c0, q4(rng, 0, 300), q4(rng, 600, 800))]
     glyphs = {}
     for n, cp in gl:
         glyphs[n] = {"cs": [box()], "comps": [], "w": (0 if n in marks else rng.randint(300, 700)) * PS, "h": 0, "u": [cp] if cp else [],
                      "anchors": [{"n": an, "x": x * PS // 4, "y": y * PS // 4} for an, x, y in anchors[n]]}
     lib = {}
-    has_cats = rng.random() < 0.5
+    has_cats = rng.random() < 0.5 or (spacing is not None and rng.random() < 0.7)
     if has_cats:
         cats = {}
         for n in names:
@@ -325,7 +334,7 @@ def gdefcurs_font(rng):
             if rng.random() < 0.3:
                 anchors.append({"n": "vcaret_1", "x": 0, "y": rng.choice([q4(rng, 100, 600), 0]) * PS // 4})
         if rng.random() < 0.6 and n not in ("acutecomb",):
-            suf = rng.choice(["", "", "", ".LTR", ".RTL", ".alt"])
+            suf = rng.choice(["", "", "", ".LTR", ".RTL", ".alt", ".1.LTR", ".2.RTL", ".alt.LTR", ".1"])
             r = rng.random()
             if r < 0.75:
                 anchors.append({"n": "entry" + suf, "x": rng.choice([q4(rng, 0, 500), 0]) * PS // 4, "y": rng.choice([q4(rng, -50, 300), 0]) * PS // 4})
